@@ -97,7 +97,11 @@ class Driver:
     """Lock-step line protocol with the compiled Lean model."""
 
     def __init__(self, machine):
-        if not os.path.exists(DRIVER):
+        for _ in range(240):
+            if os.path.exists(DRIVER):
+                break
+            time.sleep(0.5)  # a concurrent `lake build driver` replaces the binary
+        else:
             raise Infra(f"driver not built: {DRIVER}")
         self.machine = machine
         self.p = subprocess.Popen([DRIVER, machine],
